@@ -207,6 +207,16 @@ def generate(seed, tier, index=0):
         if rng.random() < 0.05 and n >= 2:
             # (near-)identical lists: many duplicate points in the tree, all ties at d = 0
             seqs = [seqs[0]] * n if rng.random() < 0.5 else [rng.choice(seqs[:2]) for _ in range(n)]
+        if rng.random() < 0.04 and n >= 2:
+            # a letter outside the 20 standard residues (ambiguity codes, stop, gap, lower case) in one or two sequences, each next to
+            # a neighbour that differs in exactly that letter: on the unchanged tree such input is rejected alike in every
+            # configuration (KeyError from the histogram encoding); whatever the outcome is, it must not depend on the configuration
+            odd = rng.choice("BZJXUO*-b")
+            for _ in range(rng.choice([1, 2])):
+                i, j = rng.sample(range(n), 2)
+                if seqs[i]:
+                    p_ = rng.randrange(len(seqs[i]))
+                    seqs[j] = seqs[i][:p_] + odd + seqs[i][p_ + (0 if rng.random() < 0.3 else 1):]
         mr = None
         if rng.random() < swarm["max_returns_p"]:
             mr = rng.choice([1, 1, 2, 3, 5, 4, max(1, n - 1), n, 10 ** 6])
